@@ -233,8 +233,16 @@ func runHarness(ld *sym.Loaded, h harnessCfg, tier, outDir string) *hOutcome {
 	capS := h.TimeoutS
 	if capS == 0 {
 		capS = 240
-		if tier == "thorough" {
-			capS = 2400
+	}
+	maxPaths := h.MaxPaths
+	if tier == "thorough" {
+		// the thorough tier explores larger bounds: ten times the wall cap (at least 40
+		// minutes) and ten times the path budget
+		capS = max(10*capS, 2400)
+		if maxPaths == 0 {
+			maxPaths = 2000000
+		} else {
+			maxPaths *= 10
 		}
 	}
 	oblS := h.OblS
@@ -250,7 +258,7 @@ func runHarness(ld *sym.Loaded, h harnessCfg, tier, outDir string) *hOutcome {
 		Solver:     h.Solver,
 		ScriptDir:  filepath.Join(outDir, "unknown"),
 		Thorough:   tier == "thorough",
-		MaxPaths:   h.MaxPaths,
+		MaxPaths:   maxPaths,
 		Witnesses:  3,
 	}
 	e := sym.NewEngine(ld, c)
